@@ -158,7 +158,13 @@ BuildMembers(fh, lh, nsp, i) ==
   ELSE LET m  == CD.members[i]
            f0 == Len(fh) + 1
            r  == ApplyDecos(Append(fh, FnObj("plain", 0, 0, 0, 0)), lh, f0, m.decos, 1)
-       IN IF m.kind = "none"
+       IN IF "share" \in DOMAIN m /\ m.share = 1
+            THEN \* the accessor is the very function object of the (first) base: `@Base.f.getter` keeps Base's setter
+                 LET inh == Lookup(cl, CD.bases[1], m.name) IN
+                 BuildMembers(fh, lh, [x \in DOMAIN nsp \cup {m.name} |->
+                                         IF x = m.name THEN (IF inh.kind = "none" THEN NoMember ELSE [inh EXCEPT !.rb = FALSE])
+                                         ELSE nsp[x]], i + 1)
+          ELSE IF m.kind = "none"
             THEN \* an accessor the re-declared property does NOT have (e.g. no setter): the name is bound to nothing
                  \* in this class and shadows what the bases provide
                  BuildMembers(fh, lh, [x \in DOMAIN nsp \cup {m.name} |-> IF x = m.name THEN NoMember ELSE nsp[x]], i + 1)
